@@ -104,7 +104,7 @@ func c08Dispatch(c *Ctx, r *Report, a *Anchors) {
 			// concrete: must be selected under objType == meta
 			typeEqMeta := func(g guard) bool {
 				bo, ok := g.cond.(*ssa.BinOp)
-				if !ok || bo.Op != token.EQL || !g.val {
+				if !ok || !((bo.Op == token.EQL && g.val) || (bo.Op == token.NEQ && !g.val)) {
 					return false
 				}
 				isTypeOf := func(v ssa.Value) bool {
@@ -217,7 +217,7 @@ func (c *Ctx) interfaceRetyped(a *Anchors) (where []ssa.CallInstruction) {
 		}
 	}
 	// selection-set resolver: the type handed to the walker
-	if tP := typeParam(a.fieldSels); tP != nil && a.walker != nil {
+	if tP := typeParam(a.fieldSels); tP != nil && a.walker != nil && a.fieldSels != a.walker {
 		for _, ci := range callsIn(a.fieldSels) {
 			if ci.Common().StaticCallee() != a.walker {
 				continue
@@ -374,8 +374,13 @@ func c08Meta(c *Ctx, r *Report) {
 					continue
 				}
 				n++
+				// a writer outside the table of known writers is held to what makes those acceptable: it writes
+				// the binding only while it is unset (or to the same type), or on an object it has just made
 				_, ok = allowed[fnName(fn)]
-				r.check("C08.META", fmt.Sprintf("%s: writes Object.meta", fnName(fn)), st.Pos(), ok, "the Go type binding of an object type is written by a function outside the reviewed writer table")
+				if !ok {
+					ok = rootAlloc(fa.X) != nil || metaWriteOnce(st, fa)
+				}
+				r.check("C08.META", fmt.Sprintf("%s: writes Object.meta", fnName(fn)), st.Pos(), ok, "the Go type binding of an object type is written by a function outside the table of known writers, and not under a test that the binding is still unset")
 				if rootAlloc(fa.X) == nil {
 					r.check("C08.META", fmt.Sprintf("%s: the binding is written once (only while unset or to the same Go type)", fnName(fn)), st.Pos(), metaWriteOnce(st, fa),
 						"an established Go type binding can be replaced: a value of another Go type resolved under an object-typed field rebinds the type, after which union / interface dispatch by Go type no longer finds the member")
